@@ -119,6 +119,25 @@ Proof.
   destruct (ph s); try exact I. destruct I5 as [A [B C]]. repeat split; auto.
 Qed.
 
+Lemma first_waiting_spec l k pre post :
+  first_waiting l = Some (k, pre, post) -> l = pre ++ Waiting k :: post.
+Proof.
+  revert pre. induction l as [|c r IH]; intros pre H; [discriminate|].
+  cbn [first_waiting] in H. destruct c as [k0| | |b|k0].
+  - destruct (first_waiting r) as [[[k1 p1] q1]|]; inversion H; subst. cbn [app]. f_equal. now apply IH.
+  - destruct (first_waiting r) as [[[k1 p1] q1]|]; inversion H; subst. cbn [app]. f_equal. now apply IH.
+  - destruct (first_waiting r) as [[[k1 p1] q1]|]; inversion H; subst. cbn [app]. f_equal. now apply IH.
+  - destruct (first_waiting r) as [[[k1 p1] q1]|]; inversion H; subst. cbn [app]. f_equal. now apply IH.
+  - inversion H; subst. reflexivity.
+Qed.
+
+Lemma answered_no_waiting l k pre post :
+  forallb answered l = true -> first_waiting l = Some (k, pre, post) -> False.
+Proof.
+  intros A F. apply first_waiting_spec in F. subst l. rewrite forallb_app in A.
+  apply andb_true_iff in A as [_ A]. cbn in A. discriminate.
+Qed.
+
 Lemma step_inv s l s' :
   inv s -> teardown_label l = false -> step s l = Some s' -> inv s'.
 Proof.
@@ -129,9 +148,18 @@ Proof.
     + intros P. rewrite P in I5. destruct I5 as [_ [_ C]].
       rewrite forallb_app, C. reflexivity.
     + intros P. unfold receiver_gone in R. rewrite P in R. discriminate.
+  - (* Issue *)
+    destruct (receiver_gone s) eqn:R; inversion H; subst; clear H; apply inv_calls; try exact Hi.
+    + intros P. rewrite P in I5. destruct I5 as [_ [_ C]].
+      rewrite forallb_app, C. reflexivity.
+    + intros P. unfold receiver_gone in R. rewrite P in R. discriminate.
+  - (* Admit *)
+    destruct (first_waiting (calls s)) as [[[k pre] post]|] eqn:F; [|discriminate].
+    inversion H; subst; clear H. apply inv_calls; [exact Hi|].
+    intros P. rewrite P in I5. destruct I5 as [_ [_ C]]. exfalso. eapply answered_no_waiting; eassumption.
   - (* Process *)
     unfold in_loop in H. destruct (ph s) eqn:P; try discriminate.
-    destruct (first_queued (calls s)) as [[[k pre] post]|]; [|discriminate].
+    destruct (first_queued (calls s)) as [[[k0 pre] post]|]; [|discriminate]. rename k0 into k.
     destruct k; inversion H; subst; clear H.
     + apply inv_calls; [exact Hi|]. intros P2. congruence.
     + unfold inv. cbn [entries hands ph next_id inbound calls].
@@ -250,7 +278,7 @@ Proof.
     unfold inv. cbn [entries hands ph next_id inbound calls].
     repeat split; try discriminate; try (intros; contradiction).
     unfold finish_calls. rewrite forallb_forall. intros c I. apply in_map_iff in I as [c0 [<- _]].
-    destruct c0 as [k| | |b]; reflexivity.
+    destruct c0 as [k| | |b|k]; reflexivity.
 Qed.
 
 Lemma run_inv ls : forall s s',
@@ -420,6 +448,10 @@ Proof.
   destruct l; cbn [teardown_label] in T; try discriminate; cbn [step progress_label] in H |- *.
   - (* Submit *) destruct (receiver_gone s); inversion H; subst; clear H;
       (split; [exact NL|cbn [ph inbound entries hands set_calls]; lia]).
+  - (* Issue *) destruct (receiver_gone s); inversion H; subst; clear H;
+      (split; [exact NL|cbn [ph inbound entries hands set_calls]; lia]).
+  - (* Admit *) destruct (first_waiting (calls s)) as [[[k pre] post]|]; [|discriminate]. inversion H; subst; clear H.
+    split; [exact NL|cbn [ph inbound entries hands set_calls]; lia].
   - (* Process *) unfold in_loop in H. destruct (ph s); try discriminate; contradiction.
   - unfold in_loop in H. destruct (ph s); cbn [andb] in H; try discriminate; contradiction.
   - unfold in_loop in H. destruct (ph s); try discriminate; contradiction.
@@ -540,8 +572,9 @@ Lemma first_queued_spec l k pre post :
   first_queued l = Some (k, pre, post) -> l = pre ++ Queued k :: post.
 Proof.
   revert pre. induction l as [|c r IH]; intros pre H; [discriminate|].
-  cbn [first_queued] in H. destruct c as [k0| | |b].
+  cbn [first_queued] in H. destruct c as [k0| | |b|k0].
   - inversion H; subst. reflexivity.
+  - destruct (first_queued r) as [[[k1 p1] q1]|]; inversion H; subst. cbn [app]. f_equal. now apply IH.
   - destruct (first_queued r) as [[[k1 p1] q1]|]; inversion H; subst. cbn [app]. f_equal. now apply IH.
   - destruct (first_queued r) as [[[k1 p1] q1]|]; inversion H; subst. cbn [app]. f_equal. now apply IH.
   - destruct (first_queued r) as [[[k1 p1] q1]|]; inversion H; subst. cbn [app]. f_equal. now apply IH.
@@ -553,10 +586,11 @@ Proof. unfold n_accepted. now rewrite filter_app, app_length. Qed.
 Lemma n_accepted_answer ok l l' : answer_first_indial ok l = Some l' -> n_accepted l' = n_accepted l.
 Proof.
   revert l'. induction l as [|c r IH]; intros l' H; [discriminate|]. cbn [answer_first_indial] in H.
-  destruct c as [k| | |b].
+  destruct c as [k| | |b|k].
   - destruct (answer_first_indial ok r) as [r'|]; inversion H; subst. unfold n_accepted in *. cbn [filter is_accepted]. now apply IH.
   - inversion H; subst. reflexivity.
   - destruct (answer_first_indial ok r) as [r'|]; inversion H; subst. unfold n_accepted in *. cbn [filter is_accepted length]. f_equal. now apply IH.
+  - destruct (answer_first_indial ok r) as [r'|]; inversion H; subst. unfold n_accepted in *. cbn [filter is_accepted]. now apply IH.
   - destruct (answer_first_indial ok r) as [r'|]; inversion H; subst. unfold n_accepted in *. cbn [filter is_accepted]. now apply IH.
 Qed.
 
@@ -575,6 +609,13 @@ Proof.
   destruct l; cbn [step] in H.
   - destruct (receiver_gone s) eqn:R; inversion H; subst; clear H; cbn [calls set_calls in_loop ph];
       rewrite n_accepted_app; unfold n_accepted at 2 4; cbn; split; try lia; intros L; specialize (A2 L); lia.
+  - destruct (receiver_gone s) eqn:R; inversion H; subst; clear H; cbn [calls set_calls in_loop ph];
+      rewrite n_accepted_app; unfold n_accepted at 2 4; cbn; split; try lia; intros L; specialize (A2 L); lia.
+  - destruct (first_waiting (calls s)) as [[[k pre] post]|] eqn:F; [|discriminate].
+    apply first_waiting_spec in F. inversion H; subst; clear H. cbn [calls set_calls in_loop ph].
+    rewrite F in A1, A2. rewrite n_accepted_app in *. unfold n_accepted in A1 at 2. unfold n_accepted in A2 at 2.
+    cbn [filter is_accepted] in A1, A2. fold (n_accepted post) in A1, A2.
+    unfold n_accepted at 2 4. cbn [filter is_accepted]. fold (n_accepted post). split; [exact A1|exact A2].
   - destruct (in_loop s) eqn:L; [|discriminate]. specialize (A2 eq_refl).
     destruct (first_queued (calls s)) as [[[k pre] post]|] eqn:F; [|discriminate].
     apply first_queued_spec in F. rewrite F in A2. rewrite n_accepted_app in A2.
@@ -622,12 +663,12 @@ Qed.
 (** ---------- C06: the manager leaves its loop only on shutdown ---------- *)
 Definition benign (l : label) : bool :=
   match l with
-  | Submit CShutdown | LastHandleDropped | Cancel _ | AcceptNone => false
+  | Submit CShutdown | Issue CShutdown | LastHandleDropped | Cancel _ | AcceptNone => false
   | _ => true
   end.
 
 Definition no_shutdown_queued (l : list call) : bool :=
-  forallb (fun c => match c with Queued CShutdown => false | _ => true end) l.
+  forallb (fun c => match c with Queued CShutdown | Waiting CShutdown => false | _ => true end) l.
 
 Lemma first_queued_no_shutdown l k pre post :
   no_shutdown_queued l = true -> first_queued l = Some (k, pre, post) ->
@@ -644,11 +685,12 @@ Lemma answer_no_shutdown ok l l' :
 Proof.
   revert l'. induction l as [|c r IH]; intros l' N H; [discriminate|]. cbn [answer_first_indial] in H.
   unfold no_shutdown_queued in *. cbn [forallb] in N. apply andb_true_iff in N as [N1 N2].
-  destruct c as [k| | |b].
+  destruct c as [k| | |b|k].
   - destruct (answer_first_indial ok r) as [r'|]; inversion H; subst. cbn [forallb]. rewrite N1. now apply IH.
   - inversion H; subst. cbn [forallb]. exact N2.
   - destruct (answer_first_indial ok r) as [r'|]; inversion H; subst. cbn [forallb]. now apply IH.
   - destruct (answer_first_indial ok r) as [r'|]; inversion H; subst. cbn [forallb]. now apply IH.
+  - destruct (answer_first_indial ok r) as [r'|]; inversion H; subst. cbn [forallb]. rewrite N1. now apply IH.
 Qed.
 
 Definition loop_inv (s : state) : Prop :=
@@ -668,6 +710,15 @@ Proof.
   - destruct k; [|discriminate]. unfold receiver_gone in H. rewrite L in H. inversion H; subst.
     cbn [ph calls set_calls hands]. split; [exact L|]. split; [|exact C].
     unfold no_shutdown_queued in *. rewrite forallb_app, N. reflexivity.
+  - destruct k; [|discriminate]. unfold receiver_gone in H. rewrite L in H. inversion H; subst.
+    cbn [ph calls set_calls hands]. split; [exact L|]. split; [|exact C].
+    unfold no_shutdown_queued in *. rewrite forallb_app, N. reflexivity.
+  - destruct (first_waiting (calls s)) as [[[k pre] post]|] eqn:F; [|discriminate].
+    apply first_waiting_spec in F. inversion H; subst.
+    cbn [ph calls set_calls hands]. split; [exact L|]. split; [|exact C].
+    unfold no_shutdown_queued in *. rewrite F in N. rewrite forallb_app in *. cbn [forallb] in *.
+    apply andb_true_iff in N as [N1 N2]. apply andb_true_iff in N2 as [N2 N3].
+    destruct k; [|discriminate]. now rewrite N1, N3.
   - unfold in_loop in H. rewrite L in H.
     destruct (first_queued (calls s)) as [[[k pre] post]|] eqn:F; [|discriminate].
     destruct (first_queued_no_shutdown _ _ _ _ N F) as [-> N']. inversion H; subst.
@@ -718,4 +769,32 @@ Lemma nothing_arrives_after_close s h : endpoint_closed s = true -> step s (Stre
 Proof.
   intros E. cbn [step]. destruct (find_h h (hands s)) as [x|]; [|reflexivity].
   destruct (h_ph x); try reflexivity. now rewrite E.
+Qed.
+
+(** ---------- the bounded mailbox: callers that wait for room ---------- *)
+Lemma finish_answers_all s s' : step s Finish = Some s' -> forallb answered (calls s') = true.
+Proof.
+  cbn [step]. destruct (ph s); try discriminate. intros H. inversion H; subst. cbn [calls].
+  unfold finish_calls. rewrite forallb_forall. intros c I. apply in_map_iff in I as [c0 [<- _]].
+  destruct c0 as [k| | |b|k]; reflexivity.
+Qed.
+
+Lemma admit_oldest_waiting s k pre post :
+  first_waiting (calls s) = Some (k, pre, post) ->
+  step s Admit = Some (set_calls s (pre ++ Queued k :: post))
+  /\ calls s = pre ++ Waiting k :: post
+  /\ forallb (fun c => match c with Waiting _ => false | _ => true end) pre = true.
+Proof.
+  intros F. split; [cbn [step]; now rewrite F|]. split; [now apply first_waiting_spec|].
+  revert k pre post F. generalize (calls s). induction l as [|c r IH]; intros k pre post F; [discriminate|].
+  cbn [first_waiting] in F. destruct c as [k0| | |b|k0];
+    try (destruct (first_waiting r) as [[[k1 p1] q1]|] eqn:E; inversion F; subst; cbn [forallb]; eapply IH; reflexivity).
+  inversion F; subst. reflexivity.
+Qed.
+
+Lemma waiting_leaves_manager_alone s k s' :
+  step s (Issue k) = Some s' ->
+  ph s' = ph s /\ hands s' = hands s /\ entries s' = entries s /\ inbound s' = inbound s /\ meas s' = meas s.
+Proof.
+  cbn [step]. destruct (receiver_gone s); intros H; inversion H; subst; unfold meas, set_calls; cbn; auto.
 Qed.
